@@ -322,7 +322,6 @@ func c15RunLit(ctx *Ctx, c c15LitCase) {
 	}
 }
 
-
 // ---------------------------------------------------------------------------
 // 3. System ↔ FHIR primitive
 
